@@ -606,9 +606,9 @@ func ParseContractFile(path string, pkg string, assumed bool) (*ContractFile, er
 }
 
 var clauseKeywords = map[string]bool{
-	"requires": true, "ensures": true, "modifies": true, "nopanic": true, "loop": true, "on": true,
+	"requires": true, "ensures": true, "proves": true, "modifies": true, "nopanic": true, "loop": true, "on": true,
 	"ghost": true, "inline": true, "opaque": true, "assume": true, "func": true, "pred": true,
-	"spec": true, "lemma": true, "axiom": true, "terminates": true, "pure": true, "alloc": true, "panics": true, "havoc": true, "trusted": true,
+	"spec": true, "lemma": true, "axiom": true, "terminates": true, "pure": true, "alloc": true, "mergeexits": true, "thorough": true, "panics": true, "havoc": true, "trusted": true,
 }
 
 func ParseContractText(text, path, pkg string, assumed bool) (*ContractFile, error) {
@@ -759,7 +759,7 @@ func ParseContractText(text, path, pkg string, assumed bool) (*ContractFile, err
 			c := &Clause{Kind: word, Text: s, Line: ll.line}
 			rest, c.Tags = splitTags(rest, cur.Tags)
 			switch word {
-			case "requires", "ensures", "assume":
+			case "requires", "ensures", "assume", "proves":
 				e, err := ParseExpr(rest)
 				if err != nil {
 					return nil, fail(err)
@@ -777,7 +777,10 @@ func ParseContractText(text, path, pkg string, assumed bool) (*ContractFile, err
 					}
 					c.Locs = append(c.Locs, e)
 				}
-			case "nopanic", "inline", "opaque", "terminates", "pure", "havoc", "trusted":
+			case "nopanic", "inline", "opaque", "terminates", "pure", "havoc", "trusted", "mergeexits":
+			case "thorough":
+				// thorough PATTERN: obligations whose name contains PATTERN are solved in the thorough tier only
+				c.Callee = strings.TrimSpace(rest)
 			case "alloc":
 				// alloc bound EXPR  (EXPR over `size` and the function's variables)
 				w2, r2 := splitWord(rest)
@@ -843,6 +846,10 @@ func splitTags(s string, def []string) (string, []string) {
 			var tags []string
 			for _, t := range strings.Split(inner, ",") {
 				t = strings.TrimSpace(t)
+				if t == "thorough" {
+					tags = append(tags, t)
+					continue
+				}
 				if len(t) < 3 || t[0] != 'C' || !unicode.IsDigit(rune(t[1])) {
 					ok = false
 					break
